@@ -38,9 +38,13 @@ _text = st.one_of(
     st.text(alphabet=st.characters(blacklist_categories=("Cs",), max_codepoint=0xFFFF), max_size=4),
     st.text(alphabet=st.characters(blacklist_categories=("Cs",), min_codepoint=0x10000), max_size=2),
     st.sampled_from(["", "a", "test", "this is a test", "foobar"]),
+    st.text(alphabet=st.characters(blacklist_categories=("Cs",), max_codepoint=0x2FFF), min_size=40, max_size=300),
 )
-_ascii = st.text(alphabet=st.characters(min_codepoint=0x20, max_codepoint=0x7E), max_size=8)
-_bytes = st.one_of(st.binary(max_size=6), st.sampled_from([b"", b"\x00", b"\xff", b"a", b"foobar"]))
+_ascii = st.one_of(st.text(alphabet=st.characters(min_codepoint=0x20, max_codepoint=0x7E), max_size=8),
+                   st.text(alphabet=st.characters(min_codepoint=0x20, max_codepoint=0x7E), max_size=8),
+                   st.text(alphabet=st.characters(min_codepoint=0x01, max_codepoint=0x7F), min_size=30, max_size=200))
+_bytes = st.one_of(st.binary(max_size=6), st.binary(max_size=6), st.sampled_from([b"", b"\x00", b"\xff", b"a", b"foobar"]),
+                   st.binary(min_size=40, max_size=300))
 
 
 def key_st(kind="any"):
